@@ -49,8 +49,26 @@ PROTOS = ["client.protocol:GeminiClientProtocol", "client.protocol:TitanClientPr
 RESOLVE = {"set_result", "set_exception"}
 
 
-def _raise_set(c: ast.Call) -> set[str]:
+def _raise_set(c: ast.Call, proj=None) -> set[str]:
     mc = method_call(c)
+    if proj is not None and mc is None:
+        # construction of a package class whose __init__ / __post_init__ validates and raises
+        cname = (dotted(c.func) or "").split(".")[-1]
+        if cname[:1].isupper():
+            out = set()
+            for ci in proj.classes.values():
+                if ci.name != cname:
+                    continue
+                for mn in ("__init__", "__post_init__"):
+                    m = ci.methods.get(mn)
+                    if m is None:
+                        continue
+                    for r in walk(m.node):
+                        if isinstance(r, ast.Raise) and r.exc is not None:
+                            e = r.exc.func if isinstance(r.exc, ast.Call) else r.exc
+                            out.add((dotted(e) or "Exception").split(".")[-1])
+            if out:
+                return out
     if mc and mc[1] == "decode":
         enc = c.args[0] if c.args else kwarg(c, "encoding")
         errs = c.args[1] if len(c.args) > 1 else kwarg(c, "errors")
@@ -58,7 +76,9 @@ def _raise_set(c: ast.Call) -> set[str]:
         if errs is None or (isinstance(errs, ast.Constant) and errs.value == "strict"):
             out.add("UnicodeDecodeError")
         if enc is not None and not isinstance(enc, ast.Constant):
-            out.add("LookupError")
+            # a codec name chosen by the peer: unknown name -> LookupError; a name with an
+            # embedded NUL -> ValueError; codecs such as "undefined" raise plain UnicodeError
+            out |= {"LookupError", "ValueError", "UnicodeError"}
         return out
     if dotted(c.func) == "int" and c.args and not isinstance(c.args[0], ast.Constant):
         return {"ValueError"}
@@ -90,7 +110,7 @@ def rule_e1(chk: Check) -> None:
             if n.ast is None or n.kind not in ("stmt", "test"):
                 continue
             for c in calls(n.ast):
-                rs = _raise_set(c)
+                rs = _raise_set(c, chk.proj)
                 if not rs:
                     continue
                 n_cat += 1
